@@ -26,6 +26,7 @@ type Summary struct {
 	Violations   map[string][]Mismatch `json:"violations"` // property -> failures of a direct oracle on the real code
 	Known        map[string][]string   `json:"known"`      // property -> known-finding hits
 	ModelErrors  int               `json:"model_errors"`
+	Exhaustive   bool              `json:"exhaustive"`
 }
 
 type Mismatch struct {
@@ -98,6 +99,14 @@ func main() {
 	switch *stream {
 	case "engine":
 		sum, err = streamEngine(*seed, *n, *driver, *corpus, *dump, *variant)
+	case "coerce":
+		sum, err = streamCoerce(*seed, *n, *driver)
+	case "order":
+		sum, err = streamOrder(*seed, *n, *variant)
+	case "modes":
+		sum, err = streamModes(*seed, *n)
+	case "alias":
+		sum, err = streamAlias(*seed, *n)
 	default:
 		err = fmt.Errorf("unknown stream %q", *stream)
 	}
